@@ -27,3 +27,4 @@ Proof. reflexivity. Qed.
 
 Print Assumptions c16_args_in_place.
 Print Assumptions c16_keywords_own_name.
+Print Assumptions c16_source_facts.
